@@ -158,7 +158,7 @@ impl Property for C17 {
     }
     fn assumptions(&self) -> Vec<String> {
         vec![
-            "constructs outside the statement's grammar (readonly T[], keyof, typeof on values other than built-in classes, conditional, mapped, intersections as prop types) are not generated".into(),
+            "constructs outside the statement's grammar (keyof, typeof on values other than built-in classes, conditional, mapped, intersections as prop types) are not generated; wrapper interfaces (String ...), readonly arrays, inherited call signatures and Array<T>[\"length\"] are generated with bounds + the inhabitant test".into(),
             "inhabitants are built alongside the type by the generator".into(),
         ]
     }
